@@ -62,6 +62,42 @@ def check(report, tier):
                 elif len(samples) < 4:
                     hl = scr.get(h.hid, [])
                     samples.append({"config": name, "history": hl[: rel_at[0] + 3][-8:]})
+    # the claims themselves: every container trait constant decided by the compiler against the model of the conjunction rule
+    # (Static.predict, C14_claims_are_conjunctions) - a container that starts claiming the trait with a part that is not
+    # relocatable (element, comparator, underlying vector / set) shows up here even if no driver configuration has such a part
+    TRAIT_FIELDS = ("t_tr", "p_TT", "p_Ti", "p_Tn", "p_Td", "p_nest", "p_nn", "v_tr", "sv_tr", "f_tr", "fs_def", "fs_ncmp", "fs_dcmp",
+                    "fs_sv", "fs_sv_ncmp", "fs_fcv", "fs_fcv_ncmp", "ss_std", "ss_fs", "ss_fs_ncmp", "ss_fs_dcmp")
+    claims_rows = 0
+    try:
+        from . import c17
+        G = c17._gen()
+        rows = G.matrix(tier)
+        obs = c17._obs_fields(G)
+        parsed, perr, _, _ = c17.run_probe(G, rows, "c++17", tier)
+        if perr:
+            report.violation({"broken": ["trait probe does not build: " + perr[-1500:]], "no_failing_input_found": True},
+                             "C14: the trait probe does not build against the current headers", True)
+            found = True
+        else:
+            claims_rows = len(parsed)
+            mism, merr, _ = c17.coq_eval(G, parsed, "c++17")
+            byid = {r["id"]: r for r in parsed}
+            bad = {}
+            for rid, pred in sorted(mism.items()):
+                r = byid[rid]
+                for f, pv in zip(obs, pred):
+                    if f in TRAIT_FIELDS and pv != r[f]:
+                        bad.setdefault(f, []).append((r, pv, r[f]))
+            for f, items in sorted(bad.items())[:4]:
+                r, pv, ov = items[0]
+                found = True
+                report.violation({"instance": c17.instance_name(G, r), "field": f, "expected": pv, "observed": ov, "failing_rows": len(items),
+                                  "row": {k: r[k] for k in sorted(r)}, "found_by": "compiler-decided trait table", "no_failing_input_found": False},
+                                 "C14 claims: %s: amc::is_trivially_relocatable constant %s is %s, the conjunction rule (Static.predict) gives %s (%d rows)"
+                                 % (c17.instance_name(G, r), f, ov, pv, len(items)))
+    except Exception as e:  # noqa: BLE001 - the probe machinery belongs to C17; its failure is reported, not hidden
+        report.violation({"broken": ["trait table for C14: " + str(e)[-600:]], "no_failing_input_found": True}, "C14: trait table could not be evaluated: " + str(e)[-300:], True)
+        found = True
     vd, vc = veccorr.run(vjobs, vres)
     sd, sc = setcorr.run("C14", report, sjobs, sres)
     ndiff = len(vd) + len(sd)
@@ -72,7 +108,7 @@ def check(report, tier):
     if broken and not found and not ndiff:
         report.violation({"broken": broken, "no_failing_input_found": True}, "proof obligations of C14 no longer check: " + "; ".join(broken)[:1200], True)
     report.coverage.update({
-        "evaluations": nsteps, "relocations_executed": nrel, "distinct_nontrivial": len(distinct),
+        "evaluations": nsteps + claims_rows, "trait_rows_decided_by_the_compiler": claims_rows, "relocations_executed": nrel, "distinct_nontrivial": len(distinct),
         "rule": "random histories with frequent `relocate` steps (memcpy of the live object into a dead slot, source poisoned with 0xDD, no destructor) "
                 "on 22 vector and 16 set configurations; distinct = (configuration, state of the container when it was relocated: size; capacity; storage "
                 "class resp. size; flat/small/large); container types that do not claim the trait refuse the step (skip:notTR)",
